@@ -85,7 +85,7 @@ STATS_RE = re.compile(r"(\d+) states generated, (\d+) distinct states found")
 
 
 def parse_tlc(out):
-    r = {"diags": [], "post": None, "notes": [], "replays": [], "states": 0, "distinct": 0, "errors": []}
+    r = {"diags": [], "post": None, "notes": [], "replays": [], "states": 0, "distinct": 0, "errors": [], "alphabet": ""}
     for line in out.splitlines():
         if line.startswith('<<"DIAG"'):
             m = re.search(r'<<"DIAG", "(.*)">>$', line)
@@ -112,6 +112,10 @@ def parse_tlc(out):
                     r["replays"].append(json.loads(m.group(1).replace('\\"', '"').replace("\\\\", "\\")))
                 except Exception:
                     r["errors"].append("unparsable REPLAY: " + line[:300])
+        elif line.startswith('<<"ALPHABET"'):
+            m = re.search(r'<<"ALPHABET", "(.*)">>$', line)
+            if m:
+                r["alphabet"] = m.group(1).replace('\\"', '"').replace("\\\\", "\\")
         elif line.startswith("Error:") or "Exception" in line or "java.lang" in line:
             r["errors"].append(line[:500])
         m = STATS_RE.search(line)
